@@ -9,7 +9,7 @@ CLAIMED = {
          "any pool size is sound for this direction; sampling of instances above 12 per term"),
  "C08": ("sess", "7 C08", "seeded simulation in the default and the checks build: after every single operation (sess histories over LS; part C08R: rewriting, Runner, raw and self-referential unions over LA with an Analysis and its modify hook; extraction as a probe) no panic / fuel exhaustion / process crash, EGraph::check passes, every listed e-node looks up to its class, no e-node shape in two live classes, e-node slots cover class slots, find is idempotent; faults K1-K5 incl. mid-history probes and skipped path compression",
          "fuel limit 20000000 rebuild ticks per operation stands in for non-termination (2500 + discard in the checks build); runs exceeding the combinatorial work budget are discarded; sampling"),
- "C09": ("sess", "7 C09", "seeded sess histories followed by candidate terms that are known-present (alpha-renamed, injectively renamed, a subterm replaced by an M_cc-equal instance), known-absent or unknown: lookup_rec_expr succeeds exactly when add_expr creates no class, both agree with the existing invocation, returned slots = free slots minus M_cc-redundant ones, lookup leaves the fingerprint unchanged",
+ "C09": ("sess", "7 C09", "seeded sess histories followed by candidate terms that are known-present (alpha-renamed, injectively renamed, a subterm replaced by an M_cc-equal instance), known-absent or unknown: lookup_rec_expr succeeds exactly when add_expr creates no class, both agree with the existing invocation, returned slots = free slots minus M_cc-redundant ones, lookup leaves the fingerprint unchanged; part C09R: after every iteration of the LA rewriting workload inserted terms (alpha-renamed) and the smallest term of their class are looked up and inserted again (found, equal to the old handle, no class allocated, canonical slots)",
          "M_cc decides 'already represented' and redundancy; sampling"),
  "C10": ("grp+sess", "7 C10", "generator sets on up to 4 slots enumerated completely (quick: up to 2 generators on 4 slots, 3 on 3; thorough: all triples on 4 slots), random sets on 4-6 slots; through unions on a k-slot leaf (eq for every permutation of S_k after every union), through a redundancy path (a slot of the symmetric leaf is made redundant; old and new handles against M_cc) and through the cfg-guarded group wrapper (contains, all_perms, count, orbit, add_set growth), each under sampled hash order, stride, naming, buggify and generator order, against brute-force subgroup closure",
          "brute-force closure M_group; exhaustive only in the enumerated generator dimension, schedules are sampled"),
@@ -25,7 +25,7 @@ CLAIMED = {
          "M_field evaluator and table construction (sim/src/oracle/field.rs); classes with more than 3 slots or without a finite term are not evaluated; sampling"),
  "C04": ("rw", "7 C04", "seeded left/right patterns over LS, a planted instance (literal, only up to equality via a balanced union, with a symmetric child, or with a repeated variable whose occurrences are equal only through an asserted symmetry), optionally in a class made bigger by further balanced unions, optional auxiliary rule that merges the matched class away inside the same call, rule built with the crate's Rewrite::new in half of the runs; after one apply_rewrites the right instance must be represented and equal to the left instance",
          "scope as in the statement (bound slots bound once and not used free; e-graphs with a redundant slot are skipped and counted); additionally the right side introduces no free slot that the left side lacks (such a slot is quantified independently of slots hidden in variable bindings); sampling"),
- "C05": ("rw", "7 C05", "seeded sess histories, then patterns abstracted from the history's terms (repeated variables, binders, two slots identified non-injectively, e-node patterns whose children share slots) and multi-patterns with shuffled equations; every returned substitution is validated by bottom-up lookup (plus eq per equation for multi-patterns); fingerprint unchanged by matching",
+ "C05": ("rw", "7 C05", "seeded sess histories, then patterns abstracted from the history's terms (repeated variables, binders, two slots identified non-injectively, e-node patterns whose children share slots) and multi-patterns with shuffled equations; every returned substitution is validated by bottom-up lookup (plus eq per equation for multi-patterns); fingerprint unchanged by matching; part C05R: the same validation for the left patterns of the LA rule pool after every iteration of the rewriting workload",
          "multi-patterns are built through the crate's MultiPattern::parse (its fields are private); sampling"),
  "C06": ("sess", "7 C06", "seeded long histories over LS and rewriting runs over LA (part C06R) (cyclic classes, redundant slots, symmetric classes), three strictly monotone cost functions; every live class with a finite term is extracted under the identity, a renamed and an own-slot-permuting invocation; membership by lookup_rec_expr + eq, cost recomputed on the term, minimality against value iteration M_cost, free slots of the result",
          "M_cost value iteration over enodes(); classes without a finite term are out of scope; sampling"),
